@@ -50,7 +50,7 @@ def _run_case_in_child(arg):
 
 def _gen_and_run(arg):
     prop, run_seed, tier_cfg, want_case = arg
-    case = prop.generate(run_seed, tier_cfg)
+    case = prop.generate(run_seed, tier_cfg)  # tier_cfg["index"] = run index within the batch
     case["run_seed"] = run_seed
     return _run_case_in_child((prop, case, want_case))
 
@@ -148,11 +148,13 @@ def main(prop, tier, replay_path=None):
     def args():
         i = 0
         while i < max_runs:
-            yield (prop, rng.derive_int(seed, prop.ID, i), cfg, i < n_samples)
+            yield (prop, rng.derive_int(seed, prop.ID, i), dict(cfg, index=i, batch_seed=seed),
+                   i < n_samples)
             i += 1
 
     harness_errors = []
     timeouts = []
+    timeout_cfg = {}
     vio_cases = {}  # signature -> (case, detail)
     redo = []  # (run_seed, digest) to re-execute for the determinism self-check
     for idx, arg, doc in pool.imap_unordered(_gen_and_run, args(),
@@ -166,9 +168,10 @@ def main(prop, tier, replay_path=None):
                 if sig not in vio_cases:
                     vio_cases[sig] = (val.get("case"), vio.get("detail"))
             if idx % det_every == 0:
-                redo.append((arg[1], val["digest"]))
+                redo.append((arg[1], val["digest"], arg[2]))
         elif status == forkrun.STATUS_TIMEOUT:
             timeouts.append(arg[1])
+            timeout_cfg[arg[1]] = arg[2]
         else:
             harness_errors.append((arg[1], doc))
     # ---- determinism self-check: same seed twice must give the same event log
@@ -176,7 +179,7 @@ def main(prop, tier, replay_path=None):
     redone = 0
     if redo:
         red_pool = forkrun.ForkPool(max(1, workers // 2), timeout=run_timeout)
-        red_args = [(prop, s, cfg, False) for s, _ in redo[: cfg.get("determinism_max", 60)]]
+        red_args = [(prop, s, c, False) for s, _, c in redo[: cfg.get("determinism_max", 60)]]
         for idx, arg, doc in red_pool.imap_unordered(_gen_and_run, red_args):
             redone += 1
             if doc.get("status") != forkrun.STATUS_OK or doc["value"]["digest"] != redo[idx][1]:
@@ -185,7 +188,7 @@ def main(prop, tier, replay_path=None):
     # ---- wall-clock kills: candidate hang, confirmed by a solo re-run on an idle pool
     confirmed_hangs = []
     for run_seed in timeouts[:5]:
-        doc = forkrun.call_in_child(_gen_and_run, (prop, run_seed, cfg, True),
+        doc = forkrun.call_in_child(_gen_and_run, (prop, run_seed, timeout_cfg[run_seed], True),
                                     timeout=run_timeout * 2)
         if doc.get("status") == forkrun.STATUS_TIMEOUT:
             confirmed_hangs.append(run_seed)
@@ -226,7 +229,7 @@ def main(prop, tier, replay_path=None):
         sig = ("%s.d no-return-within-wall-bound" % prop.ID, "wall-watchdog")
         entry = findings.match(known, sig)
         if entry is None or entry.get("status") != "known":
-            case = prop.generate(confirmed_hangs[0], cfg)
+            case = prop.generate(confirmed_hangs[0], timeout_cfg[confirmed_hangs[0]])
             case["run_seed"] = confirmed_hangs[0]
             path = write_replay(prop, case, sig, "no result within %ss, twice" % run_timeout, seed,
                                 tier)
